@@ -164,7 +164,7 @@ Proof.
 Qed.
 Lemma te_pure_no_outs c ev ns args : out_eios (fst (te_pure c ev ns args)) = [].
 Proof.
-  unfold te_pure. destruct (is_unhashable ev); [reflexivity|].
+  unfold te_pure. destruct (unhash_guard c ev ns); [reflexivity|].
   destruct (get_event_handler c ev ns args) as [[h a]|]; [apply cwr_pure_no_outs|].
   destruct (get_namespace_handler c ns args) as [[methods a]|]; [|reflexivity].
   destruct ev; try reflexivity; try (match goal with |- context [truthy ?e] => destruct (truthy e) end; reflexivity).
@@ -247,9 +247,8 @@ Proof.
     unfold set_binpkt. rewrite bindM_modify.
     rewrite handle_event_pure by assumption. cbn [fst snd mg].
     split; [|reflexivity]. f_equal.
-  - destruct (decode (table_loads tbl) payload) as [r|x]; [|discriminate].
+  - destruct (decode_any c (table_loads tbl) payload) as [r|x]; [|discriminate].
     destruct (type_is (rp r) EVENT) eqn:Ht; [|discriminate].
-    destruct (uses_binary c); [|discriminate]. cbn [andb] in He.
     inversion He; subst; clear He.
     rewrite bindM_lift_ok.
     rewrite (type_is_excl _ _ CONNECT Ht), (type_is_excl _ _ DISCONNECT Ht), Ht by reflexivity.
@@ -390,8 +389,8 @@ Qed.
 Definition quiet_msg (c : cfg) (s : srv) (eio : str) (payload : pv) (tbl : jtable) : bool :=
   match aget str_eqb (binpkt s) eio with
   | Some r => match add_attachment r payload with Ok (_, false) => true | _ => false end
-  | None => match decode (table_loads tbl) payload with
-            | Ok r => uses_binary c && (type_is (rp r) BINARY_EVENT || type_is (rp r) BINARY_ACK)
+  | None => match decode_any c (table_loads tbl) payload with
+            | Ok r => type_is (rp r) BINARY_EVENT || type_is (rp r) BINARY_ACK
             | Err _ => false end
   end.
 
@@ -405,8 +404,7 @@ Proof.
   unfold contain, handle_eio_message. rewrite bindM_getS. unfold quiet_msg in Hq.
   destruct (aget str_eqb (binpkt s) eio) as [r|].
   - destruct (add_attachment r payload) as [[r' [|]]|x]; try discriminate. split; reflexivity.
-  - destruct (decode (table_loads tbl) payload) as [r|x]; [|discriminate].
-    destruct (uses_binary c); [|discriminate]. cbn [andb] in Hq.
+  - destruct (decode_any c (table_loads tbl) payload) as [r|x]; [|discriminate].
     rewrite bindM_lift_ok.
     assert (H4 : type_is (rp r) CONNECT = false /\ type_is (rp r) DISCONNECT = false /\
                  type_is (rp r) EVENT = false /\ type_is (rp r) ACK = false).
@@ -618,4 +616,13 @@ Module EvEx.
       [(3%N, [S 0; PInt 5]); (4%N, [PStr (s2l "other"); S 1; PInt 1]); (8%N, [S 2; PBytes [9%N]]); (3%N, [S 0; PInt 5])] /\
     calls_of (List.concat (snd (run c s0 ops))) = expected_calls c s0 ops.
   Proof. vm_compute. repeat split. Qed.
+
+  (* the msgpack serializer: the frame is the packet dictionary *)
+  Definition cM := mkCfg (handlers c) (ns_handlers c) (behav c) (namespaces c) false false.
+  Example event_msgpack_ex :
+    handle_event cM e2 None (Some 0%Z) other s0 =
+    (s0, [Call 4 [PStr (s2l "other"); S 1; PInt 1];
+          Out e2 (PDict [(PStr (s2l "type"), PInt 3); (PStr (s2l "data"), PList [PStr (s2l "any")]);
+                         (PStr (s2l "nsp"), PStr slash); (PStr (s2l "id"), PInt 0)])], Ok tt).
+  Proof. vm_compute. reflexivity. Qed.
 End EvEx.
